@@ -63,7 +63,9 @@ class Expression:
         return None
 
     def functionalize(self, out, flags, is_generator=False):
-        name = f'_parse_function_{self.program_id}'
+        # (Rule "X" gets an entry point called "_parse_X", so stay away from that
+        # prefix: a rule may be called "function_7".)
+        name = f'_helper_{self.program_id}'
 
         extras = ['_ctx'] if flags.uses_context else []
         params = extras + [str(TEXT), str(POS)] + list(sorted(self.freevars()))
